@@ -528,7 +528,12 @@ pub fn run(ctx: &mut Ctx) {
     // a cached printout wraps there and serves the value of W operations ago). Two kinds of stretch:
     // edge toggles that are all effective (every one counts under any definition of "operation"), and the
     // full random alphabet.
-    let widths: &[usize] = if ctx.is_fuzz() { &[255, 256, 257] } else { &[255, 256, 257, 511, 512, 65535, 65536, 65537, 131072] };
+    // (every stretch length up to 600 as well: one operation may advance such a counter more than once, so that
+    // an 8-bit one wraps at some W below 256; for 16-bit counters only the listed widths are tried)
+    let mut widths: Vec<usize> = if ctx.is_fuzz() { vec![255, 256, 257] } else { vec![65535, 65536, 65537, 131072] };
+    if !ctx.is_fuzz() {
+        widths.extend(1..=600usize);
+    }
     for (wi, w) in widths.iter().enumerate() {
         for variant in 0..4u64 {
             case += 1;
@@ -580,7 +585,7 @@ pub fn run(ctx: &mut Ctx) {
             ctx.rec.count("api_ops", *w as u64);
             ctx.rec.count("sparse_observation_stretches", 1);
             ctx.rec.max("sparse_observation_longest_unobserved_stretch", *w as u64);
-            ctx.rec.cover(&format!("sparse|W{}|v{}", w, variant));
+            ctx.rec.cover(&format!("sparse|W{}|v{}", if *w <= 600 { (*w / 100) * 100 } else { *w }, variant));
             match res {
                 Ok(Ok(())) => {}
                 Ok(Err(t)) => ctx.rec.violation("C18", "Graph|sparse-observation|mismatch", &format!("{} ; read, then {} unobserved operations (variant {}), then read again", t, w, variant), ""),
